@@ -10,8 +10,10 @@ import (
 	"go/constant"
 	"go/token"
 	"go/types"
+	"math"
 	"math/big"
 
+	"golang.org/x/tools/go/packages"
 	"golang.org/x/tools/go/ssa"
 )
 
@@ -90,6 +92,23 @@ func largestKOf(c *Ctx, tableLen int) int64 {
 	return int64(tableLen) - 1
 }
 
+// thresholdTableGone: the package no longer has the threshold table maxSizes (CoeffUint64 was
+// rewritten around checked arithmetic, say). TABLE then judges only the Pascal rows; the arithmetic
+// of CoeffUint64 is OVF's like everybody else's, and the uint64 -> int conversion is UNSCONV's.
+func thresholdTableGone(c *Ctx) bool {
+	var p *packages.Package
+	for _, q := range c.Pkgs {
+		if q.PkgPath == c.Mod+"/comb" {
+			p = q
+		}
+	}
+	if p == nil {
+		return false
+	}
+	_, isVar := p.Types.Scope().Lookup("maxSizes").(*types.Var)
+	return !isVar
+}
+
 func binom(n, k int64) *big.Int { return new(big.Int).Binomial(n, k) }
 
 var maxU64 = new(big.Int).Sub(new(big.Int).Lsh(big.NewInt(1), 64), big.NewInt(1))
@@ -97,6 +116,9 @@ var maxU64 = new(big.Int).Sub(new(big.Int).Lsh(big.NewInt(1), 64), big.NewInt(1)
 // tableCovered: the functions whose arithmetic TABLE accounts for (CoeffUint64 and, when the
 // multiplicative loop lives in an unexported helper that only CoeffUint64 calls, that helper).
 func tableCovered(c *Ctx) map[string]bool {
+	if thresholdTableGone(c) {
+		return map[string]bool{}
+	}
 	out := map[string]bool{"comb.CoeffUint64": true}
 	fn := c.FnOpt("comb.CoeffUint64")
 	if fn == nil || len(loopsOf(fn)) != 0 {
@@ -213,6 +235,11 @@ func ruleTable(c *Ctx) *RuleResult {
 				r.find(fmt.Sprintf("comb.smallEntries[%d][%d]", n, k), c.pos(spos), "smallEntries[%d][%d] = %s but C(%d,%d) = %s", n, k, v, n, k, binom(int64(n), int64(k)))
 			}
 		}
+	}
+	if thresholdTableGone(c) {
+		r.note("comb.maxSizes no longer exists: no threshold table to judge; the arithmetic of CoeffUint64 is judged by OVF and the conversion to int by UNSCONV")
+		r.MinInst = 250
+		return r
 	}
 	// (2) thresholds
 	ms, flat, mpos := constTable(c, "comb", "maxSizes")
@@ -843,7 +870,7 @@ func boundedByValue(P *Prover, bo *ssa.BinOp, b *ssa.BasicBlock) string {
 func init() {
 	register(&propDef{
 		id:          "C16",
-		explanation: "Decides sentence one ('exact or refuse', and 'does return whenever C(n,k)*min(k,n-k) fits') for CoeffUint64/Coeff: TABLE checks with math/big that all smallEntries cells (289 today) equal C(n,k), that each of the 30 thresholds maxSizes[k] is the largest n with k*C(n,k) <= 2^64-1 (no wrap, and no earlier refusal than necessary), that refusing k > largestK is justified, that maxInt is MaxInt; and links the tables to the code by recognising on SSA the loop acc*=(n-k+i); acc/=i started at 1, entered only under k <= largestK, n <= maxSizes[k], 2k <= n, with the table lookup guarded by n <= (last row of the table) and 2k <= n, and Coeff's int conversion dominated by the <= maxInt test. OVF requires every other multiplication / addition / unsigned subtraction in package comb to be bounded by E-PROVE or to be a checked-arithmetic idiom (addHasOverflowed pattern, bits.Mul64 with the high word tested). Does not decide that Rank/Unrank are inverse.",
+		explanation: "Decides sentence one ('exact or refuse', and 'does return whenever C(n,k)*min(k,n-k) fits') for CoeffUint64/Coeff: TABLE checks with math/big that all smallEntries cells (289 today) equal C(n,k), that each of the 30 thresholds maxSizes[k] is the largest n with k*C(n,k) <= 2^64-1 (no wrap, and no earlier refusal than necessary), that refusing k > largestK is justified, that maxInt is MaxInt; and links the tables to the code by recognising on SSA the loop acc*=(n-k+i); acc/=i started at 1, entered only under k <= largestK, n <= maxSizes[k], 2k <= n, with the table lookup guarded by n <= (last row of the table) and 2k <= n, and Coeff's int conversion dominated by the <= maxInt test (UNSCONV states the same as an E-PROVE obligation - the converted value is at most MaxInt - so that it survives a rewrite that drops the table and the constant; when maxSizes is gone TABLE judges only the Pascal rows and CoeffUint64's arithmetic falls to OVF). OVF requires every other multiplication / addition / unsigned subtraction in package comb to be bounded by E-PROVE or to be a checked-arithmetic idiom (addHasOverflowed pattern, bits.Mul64 with the high word tested). Does not decide that Rank/Unrank are inverse.",
 		notDecided:  []string{"that Rank and Unrank are mutually inverse and agree with CombinationsColex", "termination of Unrank beyond absence of silent wrap"},
 		assumptions: []string{"64-bit int/uint (the sizes go/types uses for this build)", "math/big Binomial"},
 		run: func(c *Ctx, tier string) []*RuleResult {
@@ -851,10 +878,10 @@ func init() {
 			for _, n := range []string{"comb.CoeffUint64", "comb.Coeff", "comb.Coeffs", "comb.Rank", "comb.Unrank"} {
 				noWrites(c, pure, c.Fn(n), nil, "its arguments or any shared state")
 			}
-			return []*RuleResult{ruleTable(c), ruleOvf(c, "comb", tableCovered(c)), pure}
+			return []*RuleResult{ruleTable(c), ruleOvf(c, "comb", tableCovered(c)), pure, ruleUnsConv(c, codecScope(c.Fn("comb.Coeff")))}
 		},
 		controls: func(ctl *Ctx) []*RuleResult {
-			return []*RuleResult{ruleOvf(ctl, "ovfctl", nil), ruleTable(ctl), ruleOvf(ctl, "comb", tableCovered(ctl))}
+			return []*RuleResult{ruleOvf(ctl, "ovfctl", nil), ruleTable(ctl), ruleOvf(ctl, "comb", tableCovered(ctl)), ruleUnsConv(ctl, []*ssa.Function{ctl.Fn("ovfctl.BadToInt"), ctl.Fn("ovfctl.GoodToInt")})}
 		},
 	})
 }
@@ -893,6 +920,55 @@ func ruleMulOvf(c *Ctx, pkgRel string) *RuleResult {
 				r.oblig(how != "")
 				if how == "" {
 					r.find(c.short(fn)+":product "+desc, c.instrPos(bo), "%s: the product %s of two non-constant operands can exceed the range of %s and wrap silently; nothing bounds it", c.short(fn), desc, typeShort(bo.Type()))
+				}
+			}
+		}
+	}
+	return r
+}
+
+// ruleUnsConv: a uint64 (or uint) converted to a signed integer type of the same width is proved
+// to be at most the largest value of that type: beyond it the result is negative (Coeff returning a
+// wrapped binomial instead of refusing). Scope: Coeff and its helpers - Unrank's int(l) is in range
+// because C(l, r) <= rank, which is a fact about values.
+func ruleUnsConv(c *Ctx, fns []*ssa.Function) *RuleResult {
+	r := &RuleResult{Rule: "UNSCONV", Doc: "in Coeff (and the helpers it hands the work to) no unsigned value is converted to a signed integer type unless it is proved to fit", MinInst: 1}
+	for _, fn := range fns {
+		if fn.Synthetic != "" || fn.Blocks == nil {
+			continue
+		}
+		var P *Prover
+		for _, b := range fn.Blocks {
+			for _, in := range b.Instrs {
+				cv, ok := in.(*ssa.Convert)
+				if !ok || !isInt(cv.Type()) || !isInt(cv.X.Type()) || !isUnsigned(cv.X.Type()) || isUnsigned(cv.Type()) {
+					continue
+				}
+				if intBits(cv.Type()) > intBits(cv.X.Type()) {
+					continue
+				}
+				if _, isK := cv.X.(*ssa.Const); isK {
+					continue
+				}
+				_, hi, okR := typeRange(cv.Type())
+				if !okR {
+					continue
+				}
+				if intBits(cv.Type()) >= 64 {
+					hi = math.MaxInt64
+				}
+				if P == nil {
+					P = NewProver(c, fn)
+				}
+				src := c.srcAt(cv.Pos())
+				if src == "" {
+					src = valName(cv)
+				}
+				r.inst("%s: %s", c.short(fn), src)
+				ok2 := P.Prove(P.polyLoose(cv.X).add(constP(hi), -1), b)
+				r.oblig(ok2)
+				if !ok2 {
+					r.find(c.short(fn)+":unsigned to signed "+src, c.instrPos(cv), "%s converts the unsigned value %s to %s without a proof that it is at most %d: larger values come out negative", c.short(fn), P.showTerm(P.polyLoose(cv.X)), cv.Type(), hi)
 				}
 			}
 		}
